@@ -104,6 +104,29 @@ func (c *S1CUT) TakeDeliveries() []S1Delivery {
 	return out
 }
 
+// AwaitDeliveries collects handler deliveries until at least want have arrived (or maxWait has passed), then keeps
+// collecting until nothing new has arrived for quiet. Handler invocation is asynchronous to the line-level ACK: on a
+// loaded machine a fixed short sleep mistakes a late delivery for a lost message.
+func (c *S1CUT) AwaitDeliveries(want int, maxWait, quiet time.Duration) []S1Delivery {
+	out := []S1Delivery{}
+	deadline := time.Now().Add(maxWait)
+	for len(out) < want && time.Now().Before(deadline) {
+		out = append(out, c.TakeDeliveries()...)
+		if len(out) < want {
+			time.Sleep(time.Millisecond)
+		}
+	}
+	last := time.Now()
+	for time.Since(last) < quiet {
+		if d := c.TakeDeliveries(); len(d) > 0 {
+			out = append(out, d...)
+			last = time.Now()
+		}
+		time.Sleep(time.Millisecond)
+	}
+	return out
+}
+
 func (c *S1CUT) State() string { return StName(c.Conn.State()) }
 
 func (c *S1CUT) WaitState(want string, timeout time.Duration) bool {
